@@ -27,7 +27,8 @@ CHECKS["C33"] = (
 
 CHECKS["C02"] = (
     "reaching definitions over the CFG: loop-carried flow dependence of the wave state across the "
-    "potential-configuration loop; fresh-copy requirement on the killing definition",
+    "potential-configuration loop; fresh-copy requirement on the killing definition; "
+    "loop-nesting and path analysis of the counter an ensemble mean is normalised with",
     "Decides the clause 'every configuration starts from the same incident wave' for all potentials, "
     "detectors and chunkings at once, plus the seed-partition clauses (see c02.py).",
     "Numerical equality of the multislice results is not decided.",
@@ -36,7 +37,8 @@ CHECKS["C02"] = (
 CHECKS["C01"] = (
     "lazy/eager twin comparator (same callee, term-equal arguments modulo dask-only keywords) over every "
     "`if lazy` site of the package; class-contract analysis of objects rebuilt in dask blocks (C3 MRO, executed "
-    "constructor chain, getattr-resolvability of copied parameters); loop-carried reaching definitions",
+    "constructor chain, getattr-resolvability of copied parameters); loop-carried reaching definitions; "
+    "CFG typestate of the cached FFT plan (bound to the current array or not) shared with C38",
     "Decides necessary conditions of 'same values, both succeed or fail together' for every input at once: all "
     "lazy/eager twins apply the same function to the same arguments; every constructor parameter that the block "
     "reconstruction reads with getattr exists on instances of every concrete class and every attribute the "
@@ -47,7 +49,8 @@ CHECKS["C01"] = (
 
 CHECKS["C19"] = (
     "partition-completeness analysis (every constructor parameter reaches the rebuilt block or is in a reasoned "
-    "absorbed table) + same-slice rule over partition loops (term-equal slice bounds) + block-order pairing",
+    "absorbed table) + same-slice rule over partition loops (term-equal slice bounds) + block-order pairing; "
+    "origin analysis (reaching definitions) of the seeds and count a block is rebuilt from",
     "Decides that blocks are cut with exactly the loop's own range from every parallel sequence (values/weights, "
     "seeds, trajectories, positions, axis metadata per dimension), that lazy and eager arms iterate the same ranges, "
     "and that no constructor parameter is silently defaulted when a block is rebuilt.",
@@ -85,7 +88,8 @@ CHECKS["C21"] = (
 
 CHECKS["C22"] = (
     "harmonic-component abstract domain: each Cartesian component folded to C*(p cos m phi + q sin m phi), each "
-    "inverse to sigma*sqrt(X^2+Y^2), tau*arctan2(U,V)/m; round-trip identity checked per pair; key-set agreement",
+    "inverse to sigma*sqrt(X^2+Y^2), tau*arctan2(U,V)/m; round-trip identity checked per pair; key-set agreement; "
+    "freshness (reaching definitions) of the returned mapping",
     "Decides chi-equivalence of polar->cartesian->polar for all five coefficient pairs and two scalars, for every "
     "coefficient value and angle.",
     "Constant folding of the C34b prefactor uses float arithmetic with tolerance 1e-9.",
@@ -103,7 +107,8 @@ CHECKS["C23"] = (
 
 CHECKS["C08"] = (
     "def-use analysis of the scatter indices (every index reduced modulo its own axis), term normal form of the "
-    "bilinear weights (partition of unity), axis-pair agreement between repetitions and grid quantities",
+    "bilinear weights (partition of unity), axis-pair agreement between repetitions and grid quantities; "
+    "resolved-callee rule for ndimage filters on the periodic grid (mode='wrap' on every reaching definition)",
     "Decides necessary conditions of translation/repetition covariance: periodic wrap on the right axis in both "
     "arms, weights summing identically to 1, tiling/extent/slice-thickness repetition along matching axes.",
     "The covariance equalities themselves (numerical) and finite projection are not decided.",
@@ -118,7 +123,8 @@ CHECKS["C09"] = (
 )
 CHECKS["C10"] = (
     "def-use slices: store-index dependence on the block index in block loops (scatter rule), dependence of yielded "
-    "slices / loop bounds on (first_slice, last_slice) for every generate_slices implementation, window-shape rule",
+    "slices / loop bounds on (first_slice, last_slice) for every generate_slices implementation, window-shape rule; "
+    "absolute slice-index polynomials of every per-slice table read by the slice generators",
     "Decides that eager builds scatter every ensemble member to its own index, that every slice generator honours its "
     "window at both ends, and that lazy and eager builds allocate the window's shape.",
     "May-dependence only: an off-by-one inside a window is not decided. One recorded finding (GPAW magnetics).",
@@ -205,7 +211,8 @@ CHECKS["C06"] = (
 )
 CHECKS["C12"] = (
     "term normal forms (rational functions) of bin index / published sampling per detector subclass; argument-flow "
-    "agreement detector -> binning function in lazy and eager arms; comparison-operator agreement of the mask builders",
+    "agreement detector -> binning function in lazy and eager arms; comparison-operator agreement of the mask builders; "
+    "float floor-division rule on the bin-index computation shared with C13",
     "Decides that the radial sampling and offset every radial detector publishes equal the width and start of the bins "
     "it actually fills, that limits reach the mask/bin builders unchanged, and that both builders use the same "
     "half-open [inner, outer) convention.",
@@ -213,7 +220,8 @@ CHECKS["C12"] = (
 )
 CHECKS["C13"] = (
     "term check of each axis' index computation against the offset/sampling its own axis metadata publishes; "
-    "alpha-equivalence of the radial and azimuthal arms under the axis renaming",
+    "alpha-equivalence of the radial and azimuthal arms under the axis renaming; "
+    "float floor-division rule on the bin-index computation (divisor typing)",
     "Decides that limits are converted to bin indices with the sampling and offset of the axis they address, for both "
     "axes, with one limits pair per bound.",
     "int() truncation at edge-aligned limits is value-dependent and not decided.",
@@ -221,7 +229,8 @@ CHECKS["C13"] = (
 CHECKS["C14"] = (
     "array-layout typestate {FFT_ORDER, CENTERED} evaluated under every flag valuation over all fftshift/ifftshift "
     "uses and every DiffractionPatterns construction; parity domain for _ensure_parity; strictness/orientation rules "
-    "for bandlimit/block_direct",
+    "for bandlimit/block_direct; "
+    "exact evaluation of the limit properties per parity of the pixel count",
     "Decides that no shift is applied to an array already in the target layout, that every returned diffraction "
     "pattern carries the flag matching its array, that angle-limited gpts have the requested parity on all paths, and "
     "that block_direct masks strictly inside the radius.",
@@ -229,7 +238,8 @@ CHECKS["C14"] = (
 )
 CHECKS["C15"] = (
     "guarded-effect mirror (alpha-equivalence) check of _fft_interpolation_masks_1d; term normal forms of the "
-    "normalisation factors and of the shift-kernel phase; lazy/eager twin of Waves.downsample",
+    "normalisation factors and of the shift-kernel phase; lazy/eager twin of Waves.downsample; "
+    "dtype-origin analysis of casts applied after the inverse transform",
     "Decides the structural symmetry needed for up-then-down = identity, the 'values' factor new/old size with sizes "
     "read at the right program points, untouched arrays for intensity/amplitude, and the shift phase -2 pi k x.",
     "The numerical identities are not decided.",
@@ -252,7 +262,8 @@ CHECKS["C26"] = (
 )
 CHECKS["C27"] = (
     "symbolic shape (rank) domain per centering arm; parity-class evaluation of each arm against the International "
-    "Tables condition; agreement of the centering translation table with the masks; mask application dataflow",
+    "Tables condition; agreement of the centering translation table with the masks; mask application dataflow; "
+    "abstract interpretation that follows table-driven branch selection",
     "Decides the centering clause: every arm returns a rank-1 mask of the right condition, the translation table "
     "allows exactly the reflections the masks keep, and StructureFactor applies the mask of the resolved centering.",
     "Friedel symmetry, realness of the reconstructed potential and lattice-translation invariance are numerical sums "
@@ -260,7 +271,8 @@ CHECKS["C27"] = (
 )
 CHECKS["C28"] = (
     "symbolic cardinality/shape domain for scan positions; factor rule on the normal form of every update increment; "
-    "structural form of the Fourier projection and its error term; pairing dataflow of the operator pipeline",
+    "structural form of the Fourier projection and its error term; pairing dataflow of the operator pipeline; "
+    "linear forms with ROUND / FLOORDIV atoms for the window origin",
     "Decides that J explicit positions stay J positions, that every r-PIE style increment has the exit-wave "
     "difference as a factor (fixed point), that the Fourier projection keeps the phase and replaces the amplitude, "
     "and that positions/patterns are read and written with the same index.",
@@ -284,7 +296,8 @@ CHECKS["C31"] = (
 )
 CHECKS["C40"] = (
     "array-layout typestate shared with C14, evaluated end-to-end through the coordinate properties for every "
-    "(flag, units); coordinate-axis pairing rules of _com",
+    "(flag, units); coordinate-axis pairing rules of _com; "
+    "exact evaluation of the limit properties per parity of the pixel count",
     "Decides the coordinate clause: the coordinates that weight the intensities are in the same layout as the array "
     "for both units and both flag values, x weights rows and y weights columns.",
     "_integrate_gradient_2d exactness and the normalisation of the moment are numerical and not decided.",
@@ -310,7 +323,8 @@ CHECKS["C05"] = (
 )
 CHECKS["C37"] = (
     "exact symmetry check of the nine literal coefficient tables; axis/shift/scale agreement of the CPU and GPU "
-    "stencil kernels (same vector along both axes, second difference along axis a scaled by 1/sampling[a]^2)",
+    "stencil kernels (same vector along both axes, second difference along axis a scaled by 1/sampling[a]^2); "
+    "value-preserving origin analysis of the accuracy order from the constructor to the coefficient table (fixpoint over callers)",
     "Decides the stencil clauses: every table is symmetric (real eigenvalue on every discrete plane wave, necessary "
     "for intensity conservation in vacuum), both kernels apply it along exactly the two base axes with the centre at "
     "the right offset and each axis scaled by its own sampling.",
@@ -319,7 +333,8 @@ CHECKS["C37"] = (
 )
 CHECKS["C39"] = (
     "term normal form of the tilt phase against the shift-kernel phase with x = thickness*tan(tilt/1000) per axis; "
-    "axis pairing; same-function rule for base tilt and tilt axes; tilt-axis metadata mapping",
+    "axis pairing; same-function rule for base tilt and tilt axes; tilt-axis metadata mapping; "
+    "cache-key coverage with interprocedural reads and element precision for collections",
     "Decides that the tilt phase is exactly the lateral-shift phase for dz*tan(t) along the matching axis, has unit "
     "modulus, and that per-axis and 2D tilt descriptions reach the same kernel with the same components.",
     "Numerical equality and sub-pixel interpolation are not decided.",
@@ -328,7 +343,8 @@ CHECKS["C39"] = (
 CHECKS["C03"] = (
     "table/order agreement between each ensemble's `distributions` tuple, the argument order its kernel passes to "
     "_unpack_distributions, and the order of its ensemble-axes metadata (recursively through CTF components); "
-    "structural rules for _unpack_distributions and the rebuild key/value order",
+    "structural rules for _unpack_distributions and the rebuild key/value order; "
+    "symbolic path execution deciding that distribution kernels are linear in the ensemble weights",
     "Decides that array axes, ensemble shape, partition order, rebuild keys and axis metadata of every "
     "distribution-parametrised ensemble follow one order, that axis metadata lists the distribution's own values in "
     "order, that the i-th distribution occupies axis i with aligned values and weights (weights multiplied), and "
